@@ -15,38 +15,61 @@ PROPERTY = "C18"
 RULE = ("Clouds: N in 1..300 (quick: 80% <= 60), 1..6 coordinate dims + 0..3 feature channels, float64 (3/4) / "
         "float32, coordinates = RandomState(seed).randn * scale rounded to the dtype (ties have probability 0), "
         "0..N/3 far outliers placed first / last / at random rows; the reference is numpy brute force in float64 "
-        "on the same rounded data.  Radii: midpoint of a gap of the sorted pairwise distances (gap > 4*rel, "
-        "rel = max(1e-9, 8(D+2)eps)) at a drawn quantile of all pairwise distances or of the n-th-neighbour "
-        "distances, or below the smallest / above the largest distance.  knn: values within 8(D+2)eps relative, "
-        "shape, indices distinct and ATTAINING the m-th smallest reference distance within the same tolerance "
-        "(equals index equality when the gap exceeds the tolerance; tie-robust otherwise), ord 1/2/inf, batch "
-        "rank 0..2, sorted=False as a set claim, largest=True as the k largest; nbr_filter: mask == "
-        "{i: #{j!=i, d_ij<=r} >= n} exactly, rows == input rows under the mask (bitwise, as a multiset), "
-        "return_mask and plain call agree; integer-grid clouds (ties, duplicates) for the value claim with "
+        "on the same rounded data.  rel = 8(D+2)eps bounds |computed - reference distance| / distance with a factor "
+        ">= 16 to spare (inputs are exact, so fl(x-y) has relative error eps/2 and nothing cancels; 2-norm (D/2+2)eps/2, "
+        "1-norm D eps/2, inf-norm eps/2, the same again for the float64 reference); no other floor.  Radii: midpoint of a "
+        "gap of the sorted pairwise distances (gap > 4*rel) at a drawn quantile of all pairwise distances or of the "
+        "n-th-neighbour distances, or below the smallest / above the largest distance.  knn: values within rel "
+        "relative, shape, indices int64 (documented LongTensor), distinct and ATTAINING the m-th smallest reference "
+        "distance within the same tolerance, and no point left out is closer than a returned one (all tie-robust; they "
+        "equal index equality when the gaps exceed the tolerance), ord 1/2/inf, batch rank 0..2, sorted=False as a set "
+        "claim, largest=True as the k largest, N1 up to 300 (quick: about one case in twelve has N1 > 60).  Ties for knn / knn_filter "
+        "(3/8 of the cases): 'dup' = 1..N/3 rows overwritten with copies of other rows (knn: neighbours coincide and "
+        "reference points sit exactly on neighbours; knn_filter: coordinates coincide, feature channels stay distinct), "
+        "'grid' = small-integer grid (times 2^j for knn) with exactly tied distances between distinct points.  "
+        "nbr_filter: mask == {i: #{j!=i, d_ij<=r} >= n} exactly, rows == input rows under the mask (bitwise, as a "
+        "multiset), return_mask and plain call agree; integer-grid clouds (ties, duplicates) for the value claim with "
         "radii between distinct distance values; voxel_filter: cloud = min + v*(cell+frac), frac in [.1,.9], "
         "anchor at the minimum corner, or integer-grid clouds with integer / dyadic voxel sizes (points "
         "exactly on cell faces, exact arithmetic); one output row per occupied cell, centroid over all "
         "channels within 4(count+2)eps*max|x|, random=True: bitwise a member row, each cell once; knn_filter: "
         "retained = all or #{j!=i,d_ij<=r} >= k; all rows match reading A (neighbours among all points) or all "
-        "rows match reading B (among retained points; only if >= k+1 retained), within 4(k+3)eps*max|x|, rows "
-        "in input order or as a multiset; an exception or wrong shape is a failure; random_filter: every batch "
-        "item's rows are bitwise input rows at distinct indices (input rows unique), shape (...,num,D).  "
+        "rows match reading B (among retained points; only if >= k+1 retained), within 4(k+3)eps*max|x|; a row is "
+        "DETERMINED when the gap between its k-th and (k+1)-th neighbour distance exceeds 2 rel (coinciding points do "
+        "not matter then: all zero-distance points are among the k+1 nearest); a tied row must equal the mean of one of "
+        "the admissible neighbour choices (everything below the near-tie cluster + any subset of the cluster; all "
+        "enumerated when <= 64, else the row is unasserted and labelled); rows in input order, or order-free: every "
+        "determined reference row has an output row of its own and every other output row is an admissible mean of a "
+        "tied row; k = 0 (the point alone; a few % of the cases, and the only k for N = 1, ~2%) must return the points or be "
+        "refused loudly (assert / ValueError); an exception otherwise or a wrong shape is a failure; random_filter: "
+        "every batch item's rows are bitwise input rows at distinct indices (input rows unique), shape (...,num,D).  "
         "Permutation equivariance: every filter is re-run on points[pi] (pi non-identity when N>=2) and checked "
-        "against the permuted reference and against the first output (index maps for knn, sorted rows for "
-        "filters).  Camera: K = [[fx,0,cx],[0,fy,cy],[0,0,1]], |fx|,|fy| in 1e-2..1e4 both signs, cx,cy in "
-        "+-1e3, |z| in 1e-2..1e2 both signs, SE3 extrinsics (|t| <= 10), batch shapes broadcast between "
+        "against the permuted reference and against the first output (index maps for knn on rows with determined "
+        "order, sorted rows for filters; knn_filter: the determined rows must correspond through pi even when other "
+        "rows are tied - order-free: at most as many unmatched rows as tied rows).  Camera: K = [[fx,0,cx],[0,fy,cy],"
+        "[0,0,1]], |fx|,|fy| in 1e-2..1e4 both signs, cx,cy in +-1e3, |z| in 1e-2..1e2 both signs, N in 1..40 or (quick: ~1 case in 9) "
+        "41..300, SE3 extrinsics: random (4/9, |t| <= 10), identity, pure translation, half turn (w = 0 exactly) "
+        "about a coordinate axis with / without translation or about a random axis; batch shapes broadcast between "
         "points / K / T; pixel2point(point2pixel(P),z,K)=P within 16 eps (|x|+|cx z/fx|), converse within "
         "16 eps (|u-cx|+|cx|), point2pixel vs the pinhole formula u = fx X/Z + cx of T*P within 16 eps (|fx X/Z|+|cx|) plus the "
         "propagated rounding 16 eps (2|P|+|t|) of T*P, pixel2point vs ((u-cx)z/fx, (v-cy)z/fy, z) likewise, reprojerr(P, "
-        "point2pixel(P,K,T), K, T) == 0 exactly for none/sum/norm, homo2cart(cart2homo(p)) == p bitwise for "
+        "point2pixel(P,K,T), K, T) == 0 exactly for none/sum/norm, and (so that the zero is not vacuous; docstring: "
+        "reduction 'none' = the error 'on each component (u, v)') |reprojerr(P, px + s)| == |s| within 4 eps(|px|+|s|), sign "
+        "free; homo2cart(cart2homo(p)) == p bitwise for "
         "any finite p (zeros, subnormals, huge) and cart2homo = [p,1].  Non-trivial: a removed point that is "
         "not in the last rows; k >= 2; >= 2 points sharing a voxel; non-identity permutation; negative focal "
-        "length or depth.  distinct = (sub-check, config, size classes).")
-ASSUMPTIONS = ["clouds without exactly coinciding points (except the integer-grid value cases of nbr_filter / voxel_filter)",
-               "radii never within max(1e-9, 8(D+2)eps) relative of a pairwise distance; positive voxel sizes",
-               "k in 1..N-1 for knn_filter (N >= 2), 1..N2 for knn, n in 0..N for nbr_filter, num in 0..N",
-               "rectified intrinsics (no skew, last row 0 0 1), non-zero focal lengths, camera-frame depth |z| >= 1e-2",
-               "row order of filter outputs is not asserted (multiset), batch shapes only where the docstrings give '...'"]
+        "length or depth.  distinct = (sub-check, config, size classes, tie mode / extrinsics kind).")
+ASSUMPTIONS = ["clouds without exactly coinciding points for nbr_filter's real clouds, voxel_filter's real clouds and random_filter; "
+               "knn / knn_filter see coinciding points and exact ties (index / row claims there are the tie-robust ones of RULE)",
+               "radii never within 8(D+2)eps relative of a pairwise distance (16 x the worst-case rounding of a computed distance); positive voxel sizes",
+               "k in 0..N-1 for knn_filter (the point itself is one of the k+1 nearest, and knn documents k <= N2; the docstring "
+               "gives no lower bound for k, so k = 0 may be answered or refused loudly), 1..N2 for knn, n in 0..N for nbr_filter, num in 0..N",
+               "rectified intrinsics [[fx,0,cx],[0,fy,cy],[0,0,1]] only - the layout of every docstring example and the one the "
+               "property's 'non-zero focal lengths' parameterises; a skew entry K[0,1] is outside the documented domain (point2pixel "
+               "multiplies by the full matrix, pixel2point reads fx, fy, cx, cy only, so the two are not inverse for skewed K) and is not generated; "
+               "non-zero focal lengths, camera-frame depth |z| >= 1e-2",
+               "row order of filter outputs is not asserted (multiset), batch shapes only where the docstrings give '...'",
+               "dtype of knn's values: any floating dtype (the docstring promises LongTensor for the indices only)"]
 
 ORDS = ("2", "2", "1", "inf")
 U64 = float(np.finfo(np.float64).eps)
@@ -57,8 +80,15 @@ def _eps(dtype):
 
 
 def _rel(dtype, D):
-    """relative safety margin for comparisons of computed distances"""
-    return max(1e-9, 8.0 * (D + 2) * _eps(dtype))
+    """relative bound for the difference between a distance computed in `dtype` and the float64 reference.
+
+    Derivation (u = eps/2, inputs exactly representable, so there is NO cancellation error: fl(x-y) = (x-y)(1+d), |d| <= u):
+      2-norm  sqrt(sum_i fl(x_i-y_i)^2): u (difference) + [u (square) + (D-1)u (sum)]/2 (halved by the root) + u (root)
+              <= (D/2 + 2) u;   1-norm: u + (D-1)u = D u;   inf-norm: u.
+    The float64 reference carries the same bound with u64, so |computed - reference| <= (D+4) u d = (D+4)/2 eps d in the
+    worst case (float64 against float64).  8 (D+2) eps is that bound with a safety factor >= 16 (observed ratios ~0.05);
+    the former 1e-9 floor (1e5 round-offs in float64) is gone."""
+    return 8.0 * (D + 2) * _eps(dtype)
 
 
 def _rnd(a, dtype):
@@ -146,6 +176,22 @@ def _sizes(tier):
 
 
 _dtype = st.sampled_from(("float64", "float64", "float64", "float32"))
+# exact ties: "dup" = some points coincide exactly, "grid" = small integer grid (tied distances between distinct points too)
+_ties = st.sampled_from(("none", "none", "none", "none", "none", "dup", "dup", "grid"))
+
+
+def _rare(draw, n):
+    """True for roughly one draw in n..2n.  (Hypothesis strongly favours the minimum of an integer range - measured: 0 comes up in
+    ~20% of the draws of integers(0, 31) - so a rare class is selected by an interior value of a separate integer draw.)"""
+    return draw(st.integers(0, n - 1)) == n // 2
+
+
+def _duplicate_rows(rs, dst, src, cols=None):
+    """overwrite 1..max(1, len(dst)/3) random rows of dst (first `cols` columns) with random rows of src, in place"""
+    m = int(rs.randint(1, max(2, dst.shape[0] // 3 + 1)))
+    c = dst.shape[1] if cols is None else cols
+    for _ in range(m):
+        dst[rs.randint(0, dst.shape[0]), :c] = src[rs.randint(0, src.shape[0]), :c]
 _seed = st.integers(0, 2 ** 31 - 1)
 
 
@@ -178,7 +224,9 @@ class Knn(Sub):
         def s(draw):
             N2 = draw(_sizes(tier))
             same = draw(st.sampled_from((False, False, True)))
-            N1 = N2 if same else draw(st.one_of(st.integers(1, 8), st.integers(1, 60 if tier == "quick" else 300)))
+            # quick: a small share (nominally one cross case in five, see _rare) may have up to 300 reference points (the stated maximum), the others stay <= 60
+            big = tier != "quick" or _rare(draw, 5)
+            N1 = N2 if same else draw(st.one_of(st.integers(1, 8), st.integers(1, 300 if big else 60)))
             batch = draw(gen.lshape(max_rank=2, extents=(1, 2, 3), max_items=6))
             if N1 * N2 * max(1, int(np.prod(batch))) > 40000:
                 batch = []
@@ -187,11 +235,12 @@ class Knn(Sub):
                     "ord": draw(st.sampled_from(ORDS)), "batch": batch,
                     "largest": draw(st.sampled_from((None, None, None, False, True))),
                     "sorted": draw(st.sampled_from((None, None, True, False))),
-                    "dtype": draw(_dtype), "seed": draw(_seed)}
+                    "ties": draw(_ties), "dtype": draw(_dtype), "seed": draw(_seed)}
         return s()
 
     def oracle(self, case, rec):
         N1, N2, D, k, dtype = case["N1"], case["N2"], case["dim"], case["k"], case["dtype"]
+        ties = case.get("ties", "none")
         if case["same"]:
             N1 = N2
         k = min(k, N2)
@@ -200,8 +249,22 @@ class Knn(Sub):
         o = C.ord_of(case["ord"])
         rs = np.random.RandomState(case["seed"])
         scale = 10.0 ** rs.uniform(-2, 2)
-        nbr = _rnd(rs.randn(B, N2, D) * scale, dtype)
-        ref = nbr.copy() if case["same"] else _rnd(rs.randn(B, N1, D) * scale, dtype)
+        if ties == "grid":
+            # small integer grid times a power of two: exactly tied distances between distinct points, duplicates, zeros
+            G = int(rs.randint(2, 6))
+            scale = 2.0 ** rs.randint(-6, 7)
+            nbr = rs.randint(0, G, size=(B, N2, D)).astype(np.float64) * scale
+            ref = nbr.copy() if case["same"] else rs.randint(0, G, size=(B, N1, D)).astype(np.float64) * scale
+        else:
+            nbr = _rnd(rs.randn(B, N2, D) * scale, dtype)
+            ref = None if case["same"] else _rnd(rs.randn(B, N1, D) * scale, dtype)
+            if ties == "dup":
+                for b in range(B):
+                    _duplicate_rows(rs, nbr[b], nbr[b])                  # exactly coinciding neighbours
+                    if ref is not None:
+                        _duplicate_rows(rs, ref[b], nbr[b])              # reference points ON neighbours (distance 0)
+            if ref is None:
+                ref = nbr.copy()
         pi, sg = _perm(rs, N2), _perm(rs, N1)
         largest = bool(case["largest"])
         srt = case["sorted"] is not False
@@ -219,21 +282,24 @@ class Knn(Sub):
         rel = _rel(dtype, D)
         cfg = "%s:%s" % (case["ord"], "largest" if largest else "smallest")
         rec.label("ord" + case["ord"], dtype, "rank%d" % len(batch), "largest" if largest else "smallest",
-                  "sorted" if srt else "unsorted", "self" if case["same"] else "cross", "k=N" if k == N2 else ("k=1" if k == 1 else "k>=2"))
+                  "sorted" if srt else "unsorted", "self" if case["same"] else "cross", "k=N" if k == N2 else ("k=1" if k == 1 else "k>=2"),
+                  "ties_" + ties, "N1>60" if N1 > 60 else "N1<=60")
         nonid = (N2 >= 2 or N1 >= 2)
         if k >= 2 and nonid:
-            rec.nt(("knn", case["ord"], dtype, len(batch), largest, srt, case["same"], _sizeclass(N1), _sizeclass(N2), _sizeclass(k), D))
+            rec.nt(("knn", case["ord"], dtype, len(batch), largest, srt, case["same"], _sizeclass(N1), _sizeclass(N2), _sizeclass(k), D, ties))
         ok = True
         for nm, res in (("", out), ("perm:", out2)):
             vals, idx = res
             ok &= rec.check(tuple(vals.shape) == tuple(batch + [N1, k]) and tuple(idx.shape) == tuple(batch + [N1, k]),
                             "knn:shape", lambda: "%sknn shapes %s %s, expected %s" % (nm, tuple(vals.shape), tuple(idx.shape), batch + [N1, k]))
-            ok &= rec.check(idx.dtype == torch.int64 and vals.dtype == tu.TD[dtype], "knn:dtype", "values/indices dtype %s %s" % (vals.dtype, idx.dtype))
+            # the docstring promises `indices: torch.LongTensor`; for the values it only says torch.Tensor, so only a
+            # floating dtype is required (the tolerance below is the one of the input dtype in any case)
+            ok &= rec.check(idx.dtype == torch.int64 and vals.dtype.is_floating_point, "knn:dtype", "values/indices dtype %s %s" % (vals.dtype, idx.dtype))
         if not ok:
             return
-        V, I = tu.npy(out[0]).reshape(B, N1, k), out[1].numpy().reshape(B, N1, k)
-        V2, I2 = tu.npy(out2[0]).reshape(B, N1, k), out2[1].numpy().reshape(B, N1, k)
-        worst, ambiguous = 0.0, 0
+        V, I = out[0].double().numpy().reshape(B, N1, k), out[1].numpy().reshape(B, N1, k)
+        V2, I2 = out2[0].double().numpy().reshape(B, N1, k), out2[1].numpy().reshape(B, N1, k)
+        worst, ambiguous, exact_tie = 0.0, 0, 0
         for b in range(B):
             d = C.pdist(ref[b], nbr[b], o)
             vref, iref = C.knn(d, k, largest)
@@ -259,8 +325,24 @@ class Knn(Sub):
                                      tag, k, case["ord"], int(np.argmax(e2.max(-1))), Ib[int(np.argmax(e2.max(-1)))].tolist()[:8],
                                      att[int(np.argmax(e2.max(-1)))].tolist()[:8], Vb[int(np.argmax(e2.max(-1)))].tolist()[:8])):
                     return
+                if k < N2:
+                    # no closer (further, for largest) point is left out: reference distances of the points NOT returned
+                    rest = np.ones(dd.shape, bool)
+                    np.put_along_axis(rest, Ib, False, -1)
+                    if largest:
+                        edge_out, edge_in = np.where(rest, dd, -np.inf).max(-1), att.min(-1)
+                        bad = edge_out > edge_in + rel * np.abs(edge_in)
+                    else:
+                        edge_out, edge_in = np.where(rest, dd, np.inf).min(-1), att.max(-1)
+                        bad = edge_out < edge_in - rel * np.abs(edge_in)
+                    if not rec.check(not bad.any(), "knn:omitted:" + cfg, lambda: "%sk=%d ord=%s: row %d leaves out a point at distance %r "
+                                     "although it returns one at distance %r" % (tag, k, case["ord"], int(np.argmax(bad)),
+                                                                                float(edge_out[int(np.argmax(bad))]), float(edge_in[int(np.argmax(bad))]))):
+                        return
             # index map under the permutation (only rows whose neighbour order is determined)
             key = np.sort(-d if largest else d, -1)
+            if k < N2:
+                exact_tie += int((key[:, k - 1] == key[:, k]).sum())
             for i in range(N1):
                 if not C.row_gap_ok(key[sg[i]], k, 2 * rel):
                     ambiguous += 1
@@ -275,6 +357,8 @@ class Knn(Sub):
         rec.notes["knn_err/tol"] = worst
         if ambiguous:
             rec.label("knn:rows_with_near_ties")
+        if exact_tie:
+            rec.label("knn:exact_tie_at_kth")
 
     def simplify(self, case):
         yield from _shrink_common(case, "N2")
@@ -287,6 +371,8 @@ class Knn(Sub):
                 yield dict(case, **{key: None})
         if case["same"]:
             yield dict(case, same=False)
+        if case.get("ties", "none") != "none":
+            yield dict(case, ties="none")
 
 
 # =====================================================================================================
@@ -497,17 +583,34 @@ class Voxel(Sub):
 
 
 # =====================================================================================================
-def _match_rows(Y, cand, tol):
-    """greedy matching of output rows to reference rows (multiset equality within tol); True / False"""
-    if Y.shape[0] != cand.shape[0]:
-        return False
+def _unmatched(Y, cand, tol):
+    """number of rows of Y left without a partner of their own among the rows of cand (greedy matching within tol)"""
     free = np.ones(cand.shape[0], bool)
+    miss = 0
     for r in Y:
         hit = np.nonzero(free & np.all(np.abs(cand - r) <= tol, axis=1))[0]
         if hit.size == 0:
+            miss += 1
+        else:
+            free[hit[0]] = False
+    return miss
+
+
+def _explained(Y, Rdet, options, tol):
+    """order-free reading of a filter output with tied rows: every determined reference row (Rdet) has an output row of
+    its own, and every other output row is one of `options` (the admissible means of all tied rows together; None =
+    some tied row has too many resolutions to enumerate, the remaining rows are not asserted then)"""
+    free = np.ones(Y.shape[0], bool)
+    for r in Rdet:
+        hit = np.nonzero(free & np.all(np.abs(Y - r) <= tol, axis=1))[0]
+        if hit.size == 0:
             return False
         free[hit[0]] = False
-    return True
+    if options is None or not free.any():
+        return True
+    if len(options) == 0:
+        return False
+    return all(bool(np.any(np.all(np.abs(options - r) <= tol, axis=1))) for r in Y[free])
 
 
 class KnnFilter(Sub):
@@ -518,29 +621,34 @@ class KnnFilter(Sub):
     def strategy(self, tier):
         @st.composite
         def s(draw):
-            N = max(2, draw(_sizes(tier)))
+            N = 1 if _rare(draw, 32) else max(2, draw(_sizes(tier)))      # a one-point cloud admits k = 0 only
             extra = draw(st.sampled_from((0, 0, 1, 2, 3)))
             rmode = draw(st.sampled_from(("none", "none", "none", "kth", "kth", "kth", "kth", "kth", "kth", "pair", "pair", "below", "above")))
             batch = draw(gen.lshape(max_rank=2, extents=(1, 2, 3), max_items=6)) if rmode == "none" else []
             if N * N * max(1, int(np.prod(batch))) > 100000:
                 batch = []
             return {"N": N, "dim": draw(st.integers(1, 6)), "extra": extra, "pdim_given": True if extra else draw(st.booleans()),
-                    "k": draw(st.one_of(st.integers(min(2, N - 1), min(N - 1, 5)), st.integers(1, N - 1))),
+                    # k = 0 (the point alone; the only k a one-point cloud admits) gets a small share, see the oracle
+                    "k": 0 if (N == 1 or _rare(draw, 24)) else draw(st.one_of(st.integers(min(2, N - 1), min(N - 1, 5)), st.integers(1, N - 1))),
                     "n_out": draw(st.integers(0, max(0, N // 3))), "out_mode": draw(st.sampled_from(("random", "random", "first", "last"))),
                     "ord": draw(st.sampled_from(ORDS)), "ord_given": draw(st.booleans()), "rmode": rmode, "q": draw(st.floats(0, 1)),
-                    "batch": batch, "dtype": draw(_dtype), "seed": draw(_seed)}
+                    "batch": batch, "ties": draw(_ties), "dtype": draw(_dtype), "seed": draw(_seed)}
         return s()
 
     def oracle(self, case, rec):
-        N, dim, extra, dtype = max(2, case["N"]), case["dim"], case["extra"], case["dtype"]
-        k = max(1, min(case["k"], N - 1))
+        N, dim, extra, dtype = max(1, case["N"]), case["dim"], case["extra"], case["dtype"]
+        k = max(0, min(case["k"], N - 1))
+        ties = case.get("ties", "none")
         D = dim + extra
         o = C.ord_of(case["ord"])
         batch = list(case["batch"]) if case["rmode"] == "none" else []
         B = int(np.prod(batch)) if batch else 1
         rs = np.random.RandomState(case["seed"])
-        clouds = [make_cloud(rs, N, dim, extra, case["n_out"], case["out_mode"], dtype)[0] for _ in range(B)]
+        clouds = [make_cloud(rs, N, dim, extra, case["n_out"], case["out_mode"], dtype, grid=(ties == "grid"))[0] for _ in range(B)]
         pts = np.stack(clouds, 0)
+        if ties == "dup":
+            for b in range(B):
+                _duplicate_rows(rs, pts[b], pts[b], cols=dim)          # coinciding coordinates, the feature channels stay distinct
         rel = _rel(dtype, dim)
         eps = _eps(dtype)
         radius = None
@@ -561,16 +669,25 @@ class KnnFilter(Sub):
         kept = int(refs[0]["mask"].sum())
         prefix = _prefix_mask(refs[0]["mask"])
         state = "noradius" if radius is None else ("none" if kept == 0 else "all" if kept == N else ("few" if kept < k + 1 else "some"))
-        rec.label("ord" + case["ord"], dtype, "rank%d" % len(batch), "kept_" + state, "k>=2" if k >= 2 else "k=1",
-                  "removed_not_last" if not prefix else "removed_last_or_none")
+        rec.label("ord" + case["ord"], dtype, "rank%d" % len(batch), "kept_" + state, "k>=2" if k >= 2 else "k=%d" % k,
+                  "removed_not_last" if not prefix else "removed_last_or_none", "ties_" + ties, "N=1" if N == 1 else "N>1")
         if k >= 2 and (radius is None or not prefix):
-            rec.nt(("knnf", case["ord"], dtype, len(batch), dim, extra, _sizeclass(N), _sizeclass(k), state, prefix))
+            rec.nt(("knnf", case["ord"], dtype, len(batch), dim, extra, _sizeclass(N), _sizeclass(k), state, prefix, ties))
         Xs = pts.reshape(batch + [N, D])
-        with rec.sut("knn_filter"):
-            y1 = pp.knn_filter(_t(Xs, dtype), k, **kw)
-            y2 = pp.knn_filter(_t(pts[:, pi].reshape(batch + [N, D]), dtype), k, **kw)
+        # k = 0: the docstring gives no range for k ("the number of neighbors"); the statement's "all k" is read as including
+        # the point alone (mean of itself = itself, all readings coincide), but a LOUD refusal (assert / ValueError) of k = 0 is
+        # accepted as well - only a returned value has to be right.
+        refusal = (AssertionError, ValueError) if k == 0 else ()
+        try:
+            with rec.sut("knn_filter", allow=refusal):
+                y1 = pp.knn_filter(_t(Xs, dtype), k, **kw)
+                y2 = pp.knn_filter(_t(pts[:, pi].reshape(batch + [N, D]), dtype), k, **kw)
+        except refusal:
+            rec.label("knnf:k=0_refused")
+            return
         worst = 0.0
         outs = {}
+        tie_checked = tie_unchecked = 0
         for tag, y, perm in (("", y1, None), ("perm:", y2, pi)):
             if not rec.check(tuple(y.shape) == tuple(batch + [kept, D]) and y.dtype == tu.TD[dtype], "knnf:shape:" + ("r" if radius is not None else "nr"),
                              "%soutput shape %s, expected %s (k=%d radius=%r)" % (tag, tuple(y.shape), batch + [kept, D], k, radius)):
@@ -592,10 +709,25 @@ class KnnFilter(Sub):
                     if Rr is None:
                         continue
                     Rr, okr = Rr[order], rf["ok" + rd][order]
-                    err = np.abs(Y[b] - Rr) / tol
-                    err[~okr] = 0.0                              # rows with a near tie at the k-th neighbour: not asserted
+                    err = (np.abs(Y[b] - Rr) / tol).max(1)
+                    union = []
+                    for j in np.nonzero(~okr)[0]:
+                        # (near) tie at the k-th neighbour: the row must be the mean of SOME admissible choice of neighbours
+                        opt = rf["opt" + rd][order[j]]
+                        if opt is None:                          # too many alternatives to enumerate: not asserted
+                            err[j] = 0.0
+                            tie_unchecked += rd == "A"
+                            union = None
+                        else:
+                            err[j] = float((np.abs(opt - Y[b][j]) / tol).max(1).min())
+                            tie_checked += rd == "A"
+                            if union is not None:
+                                union.append(opt)
                     inorder = bool(np.all(err <= 1.0))
-                    verdict[rd] = inorder or (bool(okr.all()) and _match_rows(Y[b], Rr, tol))
+                    # rows in another order: every determined reference row needs an output row of its own, the others must be
+                    # an admissible mean of some tied row
+                    verdict[rd] = inorder or _explained(Y[b], Rr[okr], None if union is None else (
+                        np.concatenate(union, 0) if union else np.zeros((0, D))), tol)
                     if inorder and err.size and rd == "A":
                         worst = max(worst, float(err.max()))
                     if verdict[rd] and not inorder:
@@ -622,12 +754,18 @@ class KnnFilter(Sub):
             okr = refs[b]["okA"] if refs[b]["okB"] is None else (refs[b]["okA"] & refs[b]["okB"])
             dif = np.abs(Yb - Ya[order]) / tol
             dif[~okr[order]] = 0.0                               # near tie at the k-th neighbour: either resolution is right
-            same = bool(np.all(dif <= 1.0)) or (_match_rows(Yb, Ya, tol) if okr.all() else True)
+            # rows of the determined points correspond through pi; if the outputs are not in input order, as multisets: at most
+            # as many rows may stay without a partner as there are undetermined (tied) rows
+            same = bool(np.all(dif <= 1.0)) or _unmatched(Yb, Ya, tol) <= int((~okr).sum())
             if not okr.all():
                 rec.label("knnf:rows_with_near_ties")
             if not rec.check(same, "knnf:equivariance", "outputs for the permuted cloud do not correspond to the outputs for the cloud through the permutation"):
                 return
         rec.notes["knnf_err/tol"] = worst
+        if tie_checked:
+            rec.label("knnf:tie_rows_checked_against_all_resolutions")
+        if tie_unchecked:
+            rec.label("knnf:tie_rows_unasserted(too_many_resolutions)")
 
     def simplify(self, case):
         yield from _shrink_common(case, lo=2)
@@ -636,6 +774,8 @@ class KnnFilter(Sub):
             yield dict(case, k=case["k"] - 1)
         if case["n_out"]:
             yield dict(case, n_out=case["n_out"] - 1)
+        if case.get("ties", "none") != "none":
+            yield dict(case, ties="none")
 
 
 # =====================================================================================================
@@ -711,6 +851,31 @@ def _sub_batch(draw, full):
     return [x if draw(st.booleans()) else 1 for x in full]
 
 
+# extrinsics: random SE3 (half of the cases), the identity, a pure translation, a half turn (quaternion with w = 0 exactly)
+# about a coordinate axis / a random axis, with and without translation
+TKINDS = ("random", "random", "random", "random", "identity", "translation", "rotpi_axis", "rotpi_axis_t", "rotpi_random")
+
+
+def make_extrinsics(rs, kind, n):
+    """(n, 7) SE3 parameters [t, q] of the given kind (float64, unit quaternion up to rounding)"""
+    q = rs.randn(n, 4)
+    q /= np.linalg.norm(q, axis=1, keepdims=True)
+    t = rs.randn(n, 3) * 10.0 ** rs.uniform(-1, 1)
+    if kind == "identity":
+        t[:], q[:] = 0.0, [0.0, 0.0, 0.0, 1.0]
+    elif kind == "translation":
+        q[:] = [0.0, 0.0, 0.0, 1.0]
+    elif kind in ("rotpi_axis", "rotpi_axis_t"):
+        q[:] = 0.0
+        q[np.arange(n), rs.randint(0, 3, size=n)] = rs.choice([-1.0, 1.0], size=n)
+        if kind == "rotpi_axis":
+            t[:] = 0.0
+    elif kind == "rotpi_random":
+        q[:, 3] = 0.0
+        q /= np.linalg.norm(q, axis=1, keepdims=True)
+    return np.concatenate([t, q], 1)
+
+
 class Camera(Sub):
     name = "camera"
     n = {"quick": 4000, "thorough": 100000}
@@ -725,10 +890,12 @@ class Camera(Sub):
             kb = _sub_batch(draw, full)
             kb_p2p = [] if (f15 is None and kb) else kb         # see _f15_status
             return {"batch": full, "pb": _sub_batch(draw, full), "kb": kb, "kb_p2p": kb_p2p, "tb": _sub_batch(draw, full),
-                    "N": draw(st.one_of(st.integers(1, 4), st.integers(1, 40))),
+                    # a small share of large point sets (up to the 300 of the cloud clauses); quick: nominally one case in eight (see _rare)
+                    "N": draw(st.integers(41, 300)) if _rare(draw, 8 if tier == "quick" else 3) else draw(st.one_of(st.integers(1, 4), st.integers(1, 40))),
                     "fx": draw(sgn) * 10.0 ** draw(st.floats(-2, 4)), "fy": draw(sgn) * 10.0 ** draw(st.floats(-2, 4)),
                     "cx": draw(st.one_of(st.just(0.0), st.floats(-1e3, 1e3))), "cy": draw(st.one_of(st.just(0.0), st.floats(-1e3, 1e3))),
                     "zsign": draw(st.sampled_from(("pos", "neg", "mixed"))), "extr": draw(st.booleans()),
+                    "tkind": draw(st.sampled_from(TKINDS)),
                     "reduction": draw(st.sampled_from((None, "none", "sum", "norm"))),
                     "dtype": draw(_dtype), "seed": draw(_seed)}
         return s()
@@ -759,9 +926,13 @@ class Camera(Sub):
 
         neg = case["fx"] < 0 or case["fy"] < 0 or case["zsign"] != "pos"
         rec.label(dtype, "rank%d" % len(full), "z_" + case["zsign"], "fx<0" if case["fx"] < 0 else "fx>0", "fy<0" if case["fy"] < 0 else "fy>0",
-                  "extr" if case["extr"] else "noextr", "K_batched" if kb else "K_single", "p2pK_batched" if kbp else "p2pK_single")
+                  "extr" if case["extr"] else "noextr", "K_batched" if kb else "K_single", "p2pK_batched" if kbp else "p2pK_single",
+                  "N>40" if N > 40 else "N<=40")
+        tkind = case.get("tkind", "random") if case["extr"] else "none"
+        if case["extr"]:
+            rec.label("T_" + tkind)
         if neg:
-            rec.nt(("cam", dtype, case["fx"] < 0, case["fy"] < 0, case["zsign"], case["extr"], len(full), len(pb), len(kb), len(kbp), len(tb),
+            rec.nt(("cam", dtype, case["fx"] < 0, case["fy"] < 0, case["zsign"], tkind, len(full), len(pb), len(kb), len(kbp), len(tb),
                     _sizeclass(N), int(math.log10(abs(case["fx"])) // 2), case["cx"] == 0))
 
         # ---- (a) round trips in the camera frame (no extrinsics) --------------------------------------
@@ -823,9 +994,7 @@ class Camera(Sub):
         K = intr(kb)
         Tb = tb if case["extr"] else []
         nT = int(np.prod(Tb)) if Tb else 1
-        q = rs.randn(nT, 4)
-        q /= np.linalg.norm(q, axis=1, keepdims=True)
-        T = _rnd(np.concatenate([rs.randn(nT, 3) * 10.0 ** rs.uniform(-1, 1), q], 1), dtype).reshape(Tb + [7])
+        T = _rnd(make_extrinsics(rs, tkind if case["extr"] else "random", nT), dtype).reshape(Tb + [7])
         wshape = list(np.broadcast_shapes(tuple(pb), tuple(kb), tuple(Tb)))
 
         def bc(a, bs, tail):
@@ -901,6 +1070,8 @@ class Camera(Sub):
             yield dict(case, N=case["N"] // 2)
         if case["extr"]:
             yield dict(case, extr=False)
+            if case.get("tkind", "random") != "identity":
+                yield dict(case, tkind="identity")
         if case["dtype"] == "float32":
             yield dict(case, dtype="float64")
         if case["reduction"] is not None:
@@ -1000,6 +1171,27 @@ def selftest():
     assert kf["B"] is not None
     kf = C.knn_filter(np.array([[0.], [1.], [1.9], [5.]]), 2, 1, 1.0)       # only the middle point has 2 within 1.0
     assert kf["mask"].tolist() == [False, True, False, False] and kf["B"] is None and np.allclose(kf["A"], [[2.9 / 3]])
+    # ties: the point 0 has -1 and +1 at the same distance (k = 1: two admissible means), the points +-1 are determined;
+    # coinciding points with distinct feature channels are determined as long as the boundary after the k-th neighbour is clear
+    kf = C.knn_filter(np.array([[0.], [1.], [-1.], [7.]]), 1, 1)
+    assert kf["okA"].tolist() == [False, True, True, True] and kf["optA"][1] is None
+    assert sorted(kf["optA"][0][:, 0].tolist()) == [-0.5, 0.5] and np.allclose(kf["A"][1:, 0], [0.5, -0.5, 4.0])
+    dupc = np.array([[0., 10.], [0., 20.], [1., 30.], [5., 40.]])
+    kf = C.knn_filter(dupc, 1, 1)                                            # rows 0 and 1 coincide in the coordinate
+    assert kf["okA"].tolist() == [True, True, False, True] and np.allclose(kf["A"][:2], [[0., 15.], [0., 15.]])
+    assert sorted(kf["optA"][2][:, 1].tolist()) == [20.0, 25.0]
+    kf = C.knn_filter(dupc, 0, 1)                                            # k = 0: the point alone, or its exact twin
+    assert kf["okA"].tolist() == [False, False, True, True] and sorted(kf["optA"][0][:, 1].tolist()) == [10.0, 20.0]
+    assert np.allclose(kf["A"][2:], dupc[2:])
+    assert _unmatched(np.array([[1.], [2.], [2.]]), np.array([[2.], [3.], [1.]]), 0.1) == 1
+    for kind in TKINDS:
+        for t7 in make_extrinsics(np.random.RandomState(3), kind, 4):
+            Mx = R.mat4("SE3", t7)
+            assert np.allclose(Mx[:3, :3] @ Mx[:3, :3].T, np.eye(3), atol=1e-14) and abs(np.linalg.det(Mx[:3, :3]) - 1) < 1e-14
+            if kind.startswith("rotpi"):
+                assert abs(np.trace(Mx[:3, :3]) + 1) < 1e-14 and t7[6] == 0.0          # half turn
+            if kind in ("identity", "rotpi_axis"):
+                assert not t7[:3].any()
     vp = np.array([[1., 2, 3], [4, 5, 6], [7, 8, 9], [10, 11, 12], [13, 14, 15]])
     g = C.voxel_groups(vp, [5., 5, 5])
     assert sorted(g.values()) == [[0, 1], [2, 3], [4]]
